@@ -369,6 +369,7 @@ class UserManager(BaseManager):
     async def _on_add_privileged_user(self, message: AddPrivilegedUser.Response, connection: ServerConnection):
         user = self.get_user_object(message.username)
         user.privileged = True
+        self._privileged_users.add(message.username)
 
         await self._event_bus.emit(PrivilegedUserAddedEvent(user))
 
